@@ -314,11 +314,11 @@ class C09(PropCheck):
     def _kind(self, r, layouts):
         """storage of the starting point: (kind, layout)"""
         u = r.random()
-        if u < 0.40:
+        if u < 0.42:
             kind = 'f64'
-        elif u < 0.62:
+        elif u < 0.68:
             kind = r.choice(['i64', 'i64', 'i32', 'i32', 'i16', 'i8', 'u8', 'u16', 'u32', 'bool'])
-        elif u < 0.82:
+        elif u < 0.92:
             kind = r.choice(['f32', 'f32', 'f32', 'f16', 'f64be', 'f32be'])
         else:
             kind = r.choice(OUT_OF_DOMAIN)
